@@ -415,6 +415,9 @@ func (w *World) directMods(fn *ssa.Function, blocks map[*ssa.BasicBlock]bool) *m
 		for _, ins := range b.Instrs {
 			switch in := ins.(type) {
 			case *ssa.Store:
+				if rootIsLocalAlloc(in.Addr) {
+					continue // initialisation of an object allocated by this activation: not a write to memory the caller knows
+				}
 				p, sh, ok := addrPath(in.Addr)
 				if !ok {
 					mi.top = true
@@ -424,6 +427,9 @@ func (w *World) directMods(fn *ssa.Function, blocks map[*ssa.BasicBlock]bool) *m
 					mi.names[n] = true
 				}
 			case *ssa.MapUpdate:
+				if _, local := in.Map.(*ssa.MakeMap); local {
+					continue
+				}
 				mt := in.Map.Type().Underlying().(*types.Map)
 				p := mapPath(mt)
 				mi.names[p+"#has"] = true
@@ -440,6 +446,9 @@ func (w *World) directMods(fn *ssa.Function, blocks map[*ssa.BasicBlock]bool) *m
 				if b, ok := c.Value.(*ssa.Builtin); ok {
 					switch b.Name() {
 					case "append", "copy":
+						if sliceIsLocal(c.Args[0], map[ssa.Value]bool{}) {
+							continue // grows / fills a slice whose backing array was allocated by this activation
+						}
 						if st, ok := c.Args[0].Type().Underlying().(*types.Slice); ok {
 							for _, n := range leafNames(elemPath(st.Elem()), shapeOf(st.Elem())) {
 								mi.names[n] = true
@@ -966,4 +975,58 @@ func sigKey(sig *types.Signature) string {
 		out += " (" + strings.Join(rs, ", ") + ")"
 	}
 	return out
+}
+
+// rootIsLocalAlloc: the address is a field/element path starting at an Alloc of the same function.
+func rootIsLocalAlloc(v ssa.Value) bool {
+	for {
+		switch x := v.(type) {
+		case *ssa.Alloc:
+			return true
+		case *ssa.FieldAddr:
+			v = x.X
+		case *ssa.IndexAddr:
+			if _, isPtr := x.X.Type().Underlying().(*types.Pointer); isPtr {
+				v = x.X
+			} else {
+				return false
+			}
+		default:
+			return false
+		}
+	}
+}
+
+// sliceIsLocal: the slice value can only refer to a backing array allocated by
+// the current activation (or is nil).
+func sliceIsLocal(v ssa.Value, seen map[ssa.Value]bool) bool {
+	if seen[v] {
+		return true
+	}
+	seen[v] = true
+	switch x := v.(type) {
+	case *ssa.Const:
+		return x.Value == nil
+	case *ssa.MakeSlice:
+		return true
+	case *ssa.Slice:
+		if _, ok := x.X.(*ssa.Alloc); ok {
+			return true
+		}
+		return sliceIsLocal(x.X, seen)
+	case *ssa.Phi:
+		for _, e := range x.Edges {
+			if !sliceIsLocal(e, seen) {
+				return false
+			}
+		}
+		return true
+	case *ssa.Call:
+		if b, ok := x.Common().Value.(*ssa.Builtin); ok && b.Name() == "append" {
+			return sliceIsLocal(x.Common().Args[0], seen)
+		}
+	case *ssa.ChangeType:
+		return sliceIsLocal(x.X, seen)
+	}
+	return false
 }
